@@ -323,7 +323,9 @@ Lemma login_sim fl st s sp u n args :
   sp_phase sp = Auth ->
   (forall r, spec_step fl st sp (CCmd n args) r =
      if is_panic r then (Some R_PANIC, sp, st) else
-     (chk (r_ok r && is_single r && reply_eqb_nums r [Z.of_nat (length (mmsgs (get_box st u)))]) R_STATUS,
+     ((if r_ok r && is_single r
+       then chk (reply_eqb_nums r [Z.of_nat (length (mmsgs (get_box st u)))]) R_LOGIN
+       else Some R_STATUS),
       {| sp_phase := Trans; sp_user := u; sp_pending_user := u;
          sp_snap := mmsgs (get_box st u); sp_marked := [] |}, st)) ->
   exists sp', spec_step fl st sp (CCmd n args) (snd (login st s u)) = (None, sp', st) /\
